@@ -690,7 +690,7 @@ func (fr *Frame) mapLen(s *State, v *Val, m *types.Map) string {
 	ks := fr.eng.sortOf(m.Key())
 	fn := "card_" + sortKey(ks)
 	if _, ok := fr.eng.syms.syms[fn]; !ok {
-		fr.eng.syms.add(fn, fmt.Sprintf("(declare-fun %s ((Array %s Bool)) Int)", fn, ks))
+		fr.eng.syms.add(fn, fmt.Sprintf("(declare-fun %s ((Array %s Bool)) Int)\n(assert (forall ((d (Array %s Bool)) (k %s)) (! (=> (<= (%s d) 0) (not (select d k))) :pattern ((%s d) (select d k)))))", fn, ks, ks, ks, fn, fn))
 	}
 	t := fmt.Sprintf("(%s (select %s %s))", fn, s.heap(dn, ds), v.S)
 	n := fr.vc.define("maplen", "Int", t)
